@@ -42,14 +42,14 @@ def typeOf_sound : Prop :=
     SchemaWF s → EnvMatches s env w.q → ConformsRequest s w.q → StoreConforms s w.es → SlotsMatch env w.sl →
     ∀ (e : Expr) (caps : Capabilities) (τ : CedarType) (c' : Capabilities),
       typeOf m s env e caps = .ok (τ, c') → CapsHold w caps →
-      Sound w e τ c' ∧ (τ = .bool .tt → CapsHold w c')
+      TySound w e τ c' ∧ (τ = .bool .tt → CapsHold w c')
 
 /-- `typeOf_sound` for the expressions of `InFragment` (both validation modes). -/
 theorem typeOf_sound_partial (m : ValidationMode) (s : Schema) (env : RequestEnv) (w : World)
     (hWF : SchemaWF s) (henv : EnvMatches s env w.q) (hreq : ConformsRequest s w.q) (hst : StoreConforms s w.es)
     (e : Expr) (hf : InFragment e = true) (caps : Capabilities) (τ : CedarType) (c' : Capabilities)
     (h : typeOf m s env e caps = .ok (τ, c')) (hc : CapsHold w caps) :
-    Sound w e τ c' ∧ (τ = .bool .tt → CapsHold w c') :=
+    TySound w e τ c' ∧ (τ = .bool .tt → CapsHold w c') :=
   typeOf_sound_aux hWF henv hreq hst e hf caps τ c' h hc
 
 /-- the static types of the fragment mention single entity types only, and never `Never` -/
